@@ -13,7 +13,8 @@ Wire format (fields separated by TAB; strings are space-separated decimal code p
   c14_norm   vErr s            -> ok:<normal form>                     | err:<Class>
   c14_markup vErr s            -> ok:<plain>|<start>.<stop>.<style>;…  | err:<Class>     (emoji=False)
   c14_get_style vErr name def  -> ok | err:MissingStyle | err:Other    (def: `-` none, `o` a Style object, `s<str>` a str)
-`vErr` = 1: today's code where `int()`'s ValueError escapes `Color.parse` (F9); 0: the repaired code.
+`vErr` = 1: rich 9.10.0 as found, where `int()`'s ValueError escapes `Color.parse` (F9); 0: the repaired code (fix c34676b, what /repo contains
+now and what the harness sends).
 -/
 namespace RichModel.Drv.C14
 open RichModel RichModel.Proto RichModel.Totality
